@@ -297,6 +297,10 @@ def _emits_in(cls, node, depth=0, nested=None):
             if ref is not None and ref.cls is not None and ref.cls.module.name.startswith('streamz.sources') \
                     and _emits_in(cls, ref.node, depth + 1):
                 return True
+        if isinstance(n, ast.Call) and isinstance(n.func, ast.Name) and depth < 3 and cls is not None:
+            h = cls.module.functions.get(n.func.id)     # a module-level helper that emits for the node it is handed
+            if h is not None and _emits_in(cls, h.node, depth + 1):
+                return True
         if isinstance(n, ast.Call) and isinstance(n.func, ast.Attribute):
             if n.func.attr in ('_emit', 'emit'):
                 return True
